@@ -1122,6 +1122,12 @@ class Engine:
             r = LISTFN[k][0](idx)
             self.assume(z3.And(z3.Length(r) >= min(len(x) for x in v), z3.Length(r) <= max(len(x) for x in v)))
             return r
+        if isinstance(v, (list, tuple)) and is_sym(idx) and len(v) <= 8:
+            # a short concrete list indexed by a symbolic int: IndexError outside the range, one path per admissible position
+            if self.branch(z3.Or(idx < -len(v), idx >= len(v))): raise PyRaise(Exc("IndexError"))
+            for k in range(len(v) - 1):
+                if self.branch(z3.Or(idx == k, idx == k - len(v))): return v[k]
+            return v[len(v) - 1] if v else None
         if isinstance(v, (list, tuple, str, bytes)):
             if is_sym(idx): raise Unsupported("symbolic index into concrete seq")
             try: return v[idx]
@@ -1791,6 +1797,17 @@ def b_int(eng, v, base=10):
         if base == 10:
             if eng.branch(z3.StrToInt(v) < 0): raise PyRaise(Exc("ValueError"))
             return z3.StrToInt(v)
+        if base == 16:
+            # one or two hexadecimal digits (what '\\xNN' hands over): the value is an uninterpreted function of the text within 0..255;
+            # any other symbolic text is outside the subset
+            hexdig = z3.StringVal("0123456789abcdefABCDEF")
+            c0, c1 = z3.SubString(v, 0, 1), z3.SubString(v, 1, 1)
+            two = z3.And(z3.Length(v) == 2, z3.Contains(hexdig, c0), z3.Contains(hexdig, c1))
+            one = z3.And(z3.Length(v) == 1, z3.Contains(hexdig, c0))
+            if eng.branch(z3.Or(one, two)):
+                r = hexval(v)
+                eng.assume(z3.And(r >= 0, r <= 255, z3.Implies(one, r <= 15)))
+                return r
         raise Unsupported("int(symbolic str, %r)" % base)
     if is_sym(v): return v
     try:
@@ -2220,6 +2237,7 @@ def b_sum(eng, it, start=0):
 
 
 chrfn = z3.Function("chr", z3.IntSort(), z3.StringSort())
+hexval = z3.Function("hexval", z3.StringSort(), z3.IntSort())
 
 
 def b_chr(eng, v):
